@@ -451,6 +451,20 @@ Definition h_leaf_order (gl : hglyphs) (inter : bool) (t : tree) (out : list str
   | None => false
   end.
 
+(* number of rows: a leaf (or an empty slot) takes one row, an inner node the rows of its children,
+   plus one separating row exactly when it has two children of one row each *)
+Fixpoint hrows (t : tree) : nat :=
+  match t with
+  | T _ _ _ ks =>
+      if is_hole t || negb (existsb (fun k => negb (is_hole k)) ks) then 1
+      else match (fix go (l : list tree) : list nat :=
+                    match l with [] => [] | k :: r => hrows k :: go r end) ks with
+           | [1; 1] => 3
+           | rs => fold_right Nat.add 0 rs
+           end
+  end.
+Definition h_rows (t : tree) (out : list str) : bool := Nat.eqb (length out) (hrows t).
+
 (* geometry, every style: bands, icons, each parent strictly inside the connector that joins
    exactly its children *)
 Definition h_geometry (gl : hglyphs) (inter : bool) (t : tree) (out : list str) : bool :=
@@ -468,7 +482,7 @@ Definition h_decodable (gl : hglyphs) (inter : bool) (t : tree) (out : list str)
   end.
 
 Definition prop_C18_h (gl : hglyphs) (inter : bool) (t : tree) (out : list str) : bool :=
-  negb (N.eqb (g_branch gl) 32%N) &&
+  negb (N.eqb (g_branch gl) 32%N) && h_rows t out &&
   h_leaf_order gl inter t out && h_geometry gl inter t out && h_decodable gl inter t out.
 
 (* ============================================================================================== *)
